@@ -95,6 +95,12 @@ func c16Families(tier string) []engine.Family {
 		if W == 0 {
 			return
 		}
+		if W > 200 && x.Tier != "thorough" && (c.Fam == "ext-sizes" || c.Fam == "deep") {
+			// every fault position of a stream of W writes costs W*W/2 write calls: the streams of more than 200 writes
+			// (typed containers of 127+ elements, nesting beyond 64) are left to the thorough tier
+			x.Count("long_streams_left_to_thorough", 1)
+			return
+		}
 		k := x.Choose(W)
 		x.Case(fmt.Sprintf("w|%s|%d", c.Key(), k), k > 0)
 		x.Sample(func() interface{} {
